@@ -715,6 +715,13 @@ func c18Fees(c *Ctx) {
 				visit(x.Body.List)
 			case *ast.BlockStmt:
 				visit(x.List)
+			case *ast.AssignStmt:
+				// a local closure doing the appending: its body is part of the function
+				for _, r := range x.Rhs {
+					if fl, ok := r.(*ast.FuncLit); ok {
+						visit(fl.Body.List)
+					}
+				}
 			}
 		}
 	}
@@ -731,9 +738,107 @@ func c18Fees(c *Ctx) {
 		}
 		return true
 	})
+	// order: the block's transactions are appended in one pass over the outline's entries, in outline order
+	{
+		closureAppends := map[types.Object]bool{}
+		isTxnAppend := func(n ast.Node) bool {
+			as, ok := n.(*ast.AssignStmt)
+			if !ok || len(as.Rhs) != 1 {
+				return false
+			}
+			call, ok := as.Rhs[0].(*ast.CallExpr)
+			if !ok || len(call.Args) != 2 {
+				return false
+			}
+			id, ok := call.Fun.(*ast.Ident)
+			if !ok || id.Name != "append" {
+				return false
+			}
+			lt := typeName(info.TypeOf(call.Args[0]))
+			return lt == "[]types.Transaction" || lt == "[]types.V2Transaction"
+		}
+		ast.Inspect(fd.Body, func(n ast.Node) bool {
+			as, ok := n.(*ast.AssignStmt)
+			if !ok || len(as.Lhs) != 1 || len(as.Rhs) != 1 {
+				return true
+			}
+			fl, ok := as.Rhs[0].(*ast.FuncLit)
+			if !ok {
+				return true
+			}
+			has := false
+			ast.Inspect(fl.Body, func(m ast.Node) bool {
+				if isTxnAppend(m) {
+					has = true
+				}
+				return !has
+			})
+			if id, ok := as.Lhs[0].(*ast.Ident); ok && has {
+				if o := info.Defs[id]; o != nil {
+					closureAppends[o] = true
+				}
+			}
+			return true
+		})
+		loops, inOrder, outside := 0, 0, 0
+		var scan func(list []ast.Stmt, inLoop bool)
+		appendsIn := func(body ast.Node) bool {
+			found := false
+			ast.Inspect(body, func(m ast.Node) bool {
+				if _, isLit := m.(*ast.FuncLit); isLit {
+					return false
+				}
+				if isTxnAppend(m) {
+					found = true
+				}
+				if call, ok := m.(*ast.CallExpr); ok {
+					if id, ok := call.Fun.(*ast.Ident); ok && closureAppends[info.Uses[id]] {
+						found = true
+					}
+				}
+				return !found
+			})
+			return found
+		}
+		scan = func(list []ast.Stmt, inLoop bool) {
+			for _, st := range list {
+				switch x := st.(type) {
+				case *ast.RangeStmt:
+					if appendsIn(x.Body) {
+						loops++
+						if strings.HasSuffix(types.ExprString(x.X), ".Transactions") && typeName(info.TypeOf(x.X)) == "[]gateway.OutlineTransaction" {
+							inOrder++
+						}
+					}
+				case *ast.ForStmt:
+					if appendsIn(x.Body) {
+						loops++
+					}
+				case *ast.IfStmt:
+					scan(x.Body.List, inLoop)
+					if b, ok := x.Else.(*ast.BlockStmt); ok {
+						scan(b.List, inLoop)
+					}
+				case *ast.BlockStmt:
+					scan(x.List, inLoop)
+				case *ast.AssignStmt:
+					if _, isLit := x.Rhs[0].(*ast.FuncLit); !isLit && appendsIn(x) {
+						outside++
+					}
+				case *ast.ExprStmt:
+					if appendsIn(x) {
+						outside++
+					}
+				}
+			}
+		}
+		scan(fd.Body.List, false)
+		okOrder := loops == 1 && inOrder == 1 && outside == 0
+		c.Check(okOrder, "fees", "Complete:single-pass-in-outline-order", where, ifElse(okOrder, "transactions are appended in one pass over the outline's entries, so the completed block lists them in outline order", fmt.Sprintf("transactions are appended in %d loop(s) (%d over the outline's entries) and %d place(s) outside a loop: the completed block's transaction order can differ from the outline's, so its body no longer matches the commitment", loops, inOrder, outside)))
+	}
 	writers -= finalStores // storing the local accumulator back is not an update of its own
 	c.Check(n == 2 && writers == 2, "fees", "Complete:exactly-the-appended", where, fmt.Sprintf("%d append sites, %d payout updates: fees are added for exactly the appended transactions", n, writers))
-	c.Min("fees", 4)
+	c.Min("fees", 5)
 }
 
 func c18Missing(c *Ctx, ge *GuardEngine) {
